@@ -598,7 +598,7 @@ def subscript(I, fr, base, idx, node, quiet=False):
             return base.elem
         return top_av(True, "dict item", I.atoms)
     if base.kind == K_STR:
-        return AV(kind=K_STR)
+        return AV(kind=K_STR, tags=base.tags | idx.tags)
     if base.kind in (K_OBJ, K_FUNC, K_MODULE, K_CLASS, K_NONE, K_SLICE):
         if base.kind == K_NONE:
             I.emit("type-error", fr, node, what="subscript of None")
